@@ -11,7 +11,7 @@ CLAIMED = {
             "Trusted: Go runtime, math/big; the civil-calendar model (cross-checked against package time for every day enumerated)."),
     "C04": ("model_checking", "DESIGN.md §4 C04, §2 E1/E2",
             "stateless model checking of the real client: preemption-bounded DFS over all schedules of the sender / receiver / cancel-watch / peer goroutines and clock steps, crossed with an exhaustive fault enumeration",
-            "Seven query scenarios are executed on the real, instrumented ch.Client over a simulated connection inside a synctest bubble. For every fault of the outer enumeration (exception at every peer gate, stream cut and write failure at byte positions, every failing callback, unknown / unexpected / undecodable packets at every gate, the double faults cancel + exception and failing write + exception, and an exception that does not arrive whole: stream cut or server silent after every byte of an injected exception chain, or an undecodable exception body, at every gate) every schedule up to the deviation bound stated in the evidence is executed and the closed-or-packet-boundary post-condition is probed with a real Ping and a real follow-up query. Quick completes bound 1 for gate faults (2 around the insert schema exchange) and bound 0 for byte faults; thorough bound 2 everywhere, 3 for the insert scenarios under a budget, bound 1 at every byte.",
+            "Seven query scenarios are executed on the real, instrumented ch.Client over a simulated connection inside a synctest bubble. For every fault of the outer enumeration (exception at every peer gate, stream cut, lasting silence under a caller deadline and write failure at byte positions, every failing callback (also failing with an error that wraps a foreign server exception), exceptions with a chain of 130 causes, unknown / unexpected / undecodable packets at every gate, the double faults cancel + exception and failing write + exception, and an exception that does not arrive whole: stream cut or server silent after every byte of an injected exception chain, or an undecodable exception body, at every gate) every schedule up to the deviation bound stated in the evidence is executed and the closed-or-packet-boundary post-condition is probed with a real Ping and a real follow-up query. Quick completes bound 1 for gate faults (2 around the insert schema exchange) and bound 0 for byte faults; thorough bound 2 everywhere, 3 for the insert scenarios under a budget, bound 1 at every byte.",
             "Trusted: Go runtime + testing/synctest, the instrumentation pass (cmd/vinstr) placing scheduling points at every sync / channel / context / connection operation, x/sync errgroup (instrumented, not assumed). Nothing is claimed beyond the completed bound or for faults outside the enumeration; weak-memory effects are not modelled."),
     "C10": ("model_checking", "DESIGN.md §4 C10, §2 E1/E2",
             "stateless model checking of the real client: a canceller thread (or a context deadline fired by the clock pseudo-thread) is placed by the preemption-bounded DFS at every scheduling point of every other thread",
@@ -43,11 +43,11 @@ CLAIMED = {
             "Trusted: refwire hello model (fields gated on min of both revisions, as real servers do)."),
     "C01": ("exploration", "DESIGN.md §4 C01, §2 E3/E4/E5",
             "bounded-exhaustive enumeration of (column composition, value sequence, revision, buffer state) with three independent decoders (typed, inferred, reference model) as oracle, executed in the default and the purego build with transcript comparison",
-            "Every composition of the generated registry (45 base columns under Array / Nullable / LowCardinality / Map / Tuple to depth 2: ~1000 typed constructors) x all value sequences of length <= 2 (thorough 4; 5 for the base columns) over per-type boundary alphabets x 3 revisions x 3 buffer states, plus dictionary sizes around 255 / 65535, strings around the varint boundaries and around the 1 MiB allocation step (four carriers, fresh and reused targets), the same contents as a reference server writes them (wider LowCardinality keys) and under the server's spellings of the type (Decimal(P, S), explicit time zones). Each case must decode to the appended values through a fresh typed column, through Results.Auto where the type is inferable and through the reference codec (exact consumption), must not depend on the buffer's prior contents, must decode twice into an explicit inferring target (proto.AutoResult) whose ColAuto re-encodes to the same bytes, must re-encode identically and must equal the WriteBlock path; both builds must agree.",
+            "Every composition of the generated registry (45 base columns under Array / Nullable / LowCardinality / Map / Tuple to depth 2: ~1000 typed constructors, plus six tuples whose preparable element comes second) x all value sequences of length <= 2 (thorough 4; 5 for the base columns) over per-type boundary alphabets x 3 revisions x 3 buffer states, plus dictionary sizes around 255 / 65535, strings around the varint boundaries and around the 1 MiB allocation step (four carriers, fresh and reused targets), the same contents as a reference server writes them (wider LowCardinality keys) and under the server's spellings of the type (Decimal(P, S), explicit time zones). Each case must decode to the appended values through a fresh typed column, through Results.Auto where the type is inferable and through the reference codec (exact consumption), must not depend on the buffer's prior contents, must decode twice into an explicit inferring target (proto.AutoResult) whose ColAuto re-encodes to the same bytes, must re-encode identically and must equal the WriteBlock path; both builds must agree.",
             "Trusted: refcol (reference codec written from the format description) and the reflection glue mapping Go values to canonical wire values (its date arithmetic is independent of the library's). LowCardinality(Nullable(T)) is compared only against the library's own decoders (its library representation is not the server's). Depth-3 compositions are not generated."),
     "C05": ("fault_enumeration", "DESIGN.md §4 C05",
             "exhaustive enumeration of payload lengths x kinds x methods, frame sequences x read sizes, every single-byte alteration of representative frames, out-of-range size fields, and an explicit-state search over append-frame / corrupt-frame / read histories on one reader",
-            "Round trip of every payload length 0..512 (thorough 4096) in 4 content kinds with None, LZ4, ZSTD and LZ4HC at every level, cross-read by an independent frame parser in both directions; all frame sequences of length <= 3 x 67 read sizes; every byte of 16 frames altered 10 ways (thorough 255) must give an error (CorruptedDataErr with both hashes when the length fields are intact) and the following reads must only return bytes of verified frames; size fields beyond the limit rejected with < 1 MiB allocated; all histories of <= 4 (5) steps.",
+            "Round trip of every payload length 0..512 (thorough 4096) in 4 content kinds with None, LZ4, ZSTD and LZ4HC at every level, cross-read by an independent frame parser in both directions; all frame sequences of length <= 3 x 67 read sizes; every byte of 16 frames altered 10 ways (thorough 255) must give an error (CorruptedDataErr with both hashes when the length fields are intact) and the following reads must only return bytes of verified frames; size fields beyond the limit rejected with < 1 MiB allocated; all histories of <= 4 (5) steps, each drained, with the rule that nothing behind an altered frame is handed out before an error was reported; strings around 1 MiB read through proto.Reader over compressed frames. Workers run under a 3 GiB address-space limit: an allocation driven by an unverified size field aborts inside library code and is attributed to the frame.",
             "Trusted: go-faster/city, pierrec/lz4, klauspost/zstd (shared by library and reference frame codec)."),
     "C06": ("fault_enumeration", "DESIGN.md §4 C06",
             "exhaustive single-point mutation of valid encodings (every byte x 10 values, every offset x 25 boundary / huge values incl. the neighbourhoods of the signed limits, as 8-byte field and as varint, every splice offset) decoded in memory-limited subprocesses with crash attribution and a non-termination watchdog",
@@ -55,7 +55,7 @@ CLAIMED = {
             "Trusted: the overlay that rewrites only the constant maxRowsInBLock. Quick covers every composition of depth <= 1 and every 11th of depth 2; thorough all."),
     "C07": ("fault_enumeration", "DESIGN.md §4 C07",
             "exhaustive enumeration of every proper prefix of every corpus encoding (plain, and inside None / LZ4 / ZSTD frames as one and two frames), decoded through typed and inferred targets",
-            "Corpus = C01 blocks (all compositions, incl. enums with a member numbered 0; many-row blocks of 4095 / 4096 / 8192 rows of every base column and every composition over Nothing, cut around the buffer-size multiples) and C17 messages at three revisions; ~2.2 million (encoding, cut, decoder) cases in the quick tier; a prefix the reference model parses as a complete message is excluded by construction. Values longer than the 1 MiB allocation step (seven block positions, three messages) are cut at a stated subset of positions (both ends, around every 64 KiB step, a 4099-byte stride). Oracle: an error, never nil.",
+            "Corpus = C01 blocks (all compositions, each also as its zero-row header block and, for LowCardinality, as a server writes it with 16 / 32 / 64-bit keys; incl. enums with a member numbered 0; many-row blocks of 4095 / 4096 / 8192 rows of every base column and every composition over Nothing, cut around the buffer-size multiples) and C17 messages at three revisions; ~2.2 million (encoding, cut, decoder) cases in the quick tier; a prefix the reference model parses as a complete message is excluded by construction. Values longer than the 1 MiB allocation step (seven block positions, three messages) are cut at a stated subset of positions (both ends, around every 64 KiB step, a 4099-byte stride). Oracle: an error, never nil.",
             "Trusted: refcol / refwire for the exclusion of prefixes that are complete messages."),
     "C11": ("model_checking", "DESIGN.md §4 C11, §2 E1",
             "stateless model checking of the real chpool + puddle + ch.Dial under the controlled scheduler: preemption-bounded DFS over all interleavings of the pool-level steps of 2-3 holder threads, an optional closer thread and the health-check goroutine driven by the fake clock",
